@@ -5,6 +5,8 @@ import Proofs.KNStats
 import Proofs.KNAdjust
 import Proofs.KNCorpus2
 import Proofs.KNCorpus3
+import Proofs.KNInterp2
+import Proofs.KNBlocks
 /-!
 # C05 — lmplz computes interpolated modified Kneser-Ney estimates
 
@@ -195,6 +197,71 @@ theorem pruned_eq_false_iff (cfg : Cfg) (full : Spec.Table) (g : Gram) :
       (g = [unk] ∨ g = [bos] ∨ g = [eos]) ∨
       (cfg.thr (g.length - 1) < Spec.trueCount full g ∧ ∀ w ∈ g, cfg.excl w = false) :=
   KV.KN.Norm.pruned_eq_false_iff cfg full g
+
+/-! ## the whole pipeline -/
+
+/-- **interp_eq / the headline theorem of C05**: for every non-empty corpus of ordinary words,
+every order ≥ 1, every non-decreasing threshold vector, every excluded-word set (`pv` = a
+vocabulary limit was given), either `--interpolate_unigrams` setting and either fallback:
+the streaming pipeline transcribed from the C++ (`AdjustCounts::Run` registers and flush,
+`AddRight`/`MergeRight` runs in context order, `PruneNGramStream`, the suffix-order join of
+`JointOrder`, sequentially consumed or hash-matched gammas) returns **the same model or the
+same error** as the set-based specification: same statistics, discounts, header counts,
+uniform, and the same n-grams with the same exact probabilities and back-offs. -/
+theorem estimate_eq_spec (cfg : Cfg) (pv : Bool) (fallback : Option Disc) (corpus : List (List Word))
+    (h1 : 1 ≤ cfg.order) (hne : corpus ≠ []) (hw : ∀ s ∈ corpus, ∀ w ∈ s, 3 ≤ w)
+    (hthr : ∀ i, i < cfg.order - 1 → cfg.thr i ≤ cfg.thr (i + 1))
+    (hk : cfg.keepSpecials = true) (hfix : cfg.flushAdjusted = true)
+    (hpv : pv = false → ∀ w, cfg.excl w = false) :
+    estimate cfg pv fallback corpus = Spec.estimate cfg pv fallback corpus :=
+  KV.KN.Interp.estimate_eq_spec cfg pv fallback corpus h1 hne hw hthr hk hfix hpv
+
+example : ∃ (cfg : Cfg) (corpus : List (List Word)), 1 ≤ cfg.order ∧ corpus ≠ [] ∧ (∀ s ∈ corpus, ∀ w ∈ s, 3 ≤ w) ∧
+    (∀ i, i < cfg.order - 1 → cfg.thr i ≤ cfg.thr (i + 1)) ∧ cfg.keepSpecials = true ∧ cfg.flushAdjusted = true :=
+  ⟨{ order := 3, thr := fun i => if i = 0 then 0 else 1, excl := fun _ => false }, [[3, 4], [3], [4, 3, 5]],
+   by decide, by decide, by decide, by decide, rfl, rfl⟩
+
+/-- `estimate_eq_spec` for the variant of the code the current tree contains -/
+theorem estimate_eq_spec_tree (cfg : Cfg) (pv : Bool) (fallback : Option Disc) (corpus : List (List Word))
+    (h1 : 1 ≤ cfg.order) (hne : corpus ≠ []) (hw : ∀ s ∈ corpus, ∀ w ∈ s, 3 ≤ w)
+    (hthr : ∀ i, i < cfg.order - 1 → cfg.thr i ≤ cfg.thr (i + 1))
+    (hk : cfg.keepSpecials = KV.Gen.C05.keepSpecials) (hfix : cfg.flushAdjusted = KV.Gen.C05.flushAdjusted)
+    (hpv : pv = false → ∀ w, cfg.excl w = false) :
+    estimate cfg pv fallback corpus = Spec.estimate cfg pv fallback corpus :=
+  estimate_eq_spec cfg pv fallback corpus h1 hne hw hthr (hk.trans (by decide)) (hfix.trans (by decide)) hpv
+
+/-! ## the two in-place compacting iterators (block level) -/
+
+open KV.KN.Blocks in
+/-- `CollapseStream`: the consumer sees every record of the block, in order … -/
+theorem collapse_block_seen {α : Type} [Inhabited α] (p : α → Bool) (block : List α) :
+    (collapseBlock p block).1 = block := collapse_seen p block
+
+open KV.KN.Blocks in
+/-- … and the block that flows downstream is a permutation of the records to keep, … -/
+theorem collapse_block_perm {α : Type} [Inhabited α] (p : α → Bool) (block : List α) :
+    (collapseBlock p block).2.Perm (block.filter fun x => !p x) := collapse_perm p block
+
+open KV.KN.Blocks in
+/-- … so for every partition of the stream into blocks the output is, as a multiset, the model's
+`collapse` (the stream is sorted again afterwards) -/
+theorem collapse_stream_eq (cfg : Cfg) (blocks : List (List (Gram × Nat))) :
+    ((collapseStream bosAt1 blocks).2.map fun e => (⟨e.1, e.2, markOf cfg e.2 e.1⟩ : Emit)).Perm
+      (collapse cfg blocks.flatten) := collapseStream_collapse cfg blocks
+
+open KV.KN.Blocks in
+/-- `PruneNGramStream`, repaired: for every block partition the output stream is the filtered stream -/
+theorem prune_stream_fixed {β : Type} (f : Emit → β) (blocks : List (List Emit)) :
+    pruneStream true f blocks = (blocks.flatten.filter keptBy).map f := pruneStream_fixed f blocks
+
+open KV.KN.Blocks in
+/-- `PruneNGramStream` as it stands: a special unigram that follows a dropped record in its block
+is replaced by the dropped record's stale slot (reachable with a renumbered vocabulary) -/
+theorem prune_stream_unfixed_false :
+    pruneBlock false id [⟨[5], 1, true⟩, ⟨[2], 3, false⟩] = [⟨[5], 1, true⟩] ∧
+    pruneBlock true id [⟨[5], 1, true⟩, ⟨[2], 3, false⟩] = [⟨[2], 3, false⟩] ∧
+    ([⟨[5], 1, true⟩, ⟨[2], 3, false⟩] : List Emit).filter keptBy = [⟨[2], 3, false⟩] :=
+  KV.KN.Blocks.prune_stream_unfixed_false
 
 /-- the tree never count-prunes the special unigrams in the lower-order paths -/
 theorem keep_specials_tree : KV.Gen.C05.keepSpecials = true := by decide
